@@ -504,7 +504,7 @@ def owner_bound(prog: Program) -> RuleResult:
         if not owner_params:
             raise AnalysisError(f"OWNER-BOUND: {f.short} has no owner parameter")
         own = owner_params[0]
-        paths = explore(prog, f, [Sym(p) for p in f.params], max_paths=300, inline=lambda q: False)
+        paths = explore(prog, f, [Sym(p) for p in f.params], max_paths=300, inline=lambda q: False, generic_loops=True)
         bad = None
         n_cont = 0
         for v, o, calls in paths:
@@ -512,6 +512,8 @@ def owner_bound(prog: Program) -> RuleResult:
             guarded = [k for k in v if isinstance(k, tuple) and k[0] == "isinstance"]
             if guarded and not is_cont:
                 continue
+            if any(isinstance(k, tuple) and len(k) == 3 and k[0] == "is" and set(k[1:]) == {"None", own} and val is True for k, val in v.items()):
+                continue  # no instance at hand
             n_cont += 1
             binds = any("_bind_owner(" in term(c) and own in term(c) for c in calls)
             same = any(isinstance(k, tuple) and len(k) == 3 and k[0] == "is" and own in [x if isinstance(x, str) else term(x) for x in k[1:]] and val is True for k, val in v.items())
@@ -524,5 +526,54 @@ def owner_bound(prog: Program) -> RuleResult:
     return r
 
 
+def id_memo(prog: Program) -> RuleResult:
+    """'Whatever was created, related and garbage collected before ... leaves nothing behind that can make a new relation look already known.'  A
+    descriptor is one object per class attribute and lives as long as the class: what it remembers about instances by their id() - pairs that
+    'were recorded already' - outlives them, and the next instance allocated at a freed address inherits the verdict: it is put into the
+    field, and no relation reaches the graph.  (Containers bound to one instance are judged by ID-STATE; the symbol graph's own index by IDKEY.)"""
+    r = RuleResult("ID-MEMO", "a descriptor remembers nothing about instances by their id()", floor=1)
+    pd = prog.cls("property_descriptor.PropertyDescriptor")
+    fam = [pd] + list(prog.subclasses(pd.qual, strict=True))
+    n = 0
+    seen = set()
+    for c in fam:
+        for f in sorted(c.methods.values(), key=lambda x: x.qual):
+            if f.qual in seen or not f.params:
+                continue
+            seen.add(f.qual)
+            n += 1
+            selfn = f.params[0]
+            # locals that carry an id
+            ids = set()
+            for x in walk_local(f.node):
+                if isinstance(x, ast.Assign) and len(x.targets) == 1 and isinstance(x.targets[0], ast.Name) and any(isinstance(y, ast.Call) and isinstance(y.func, ast.Name) and y.func.id == "id" for y in ast.walk(x.value)):
+                    ids.add(x.targets[0].id)
+
+            def by_id(e) -> bool:
+                return any((isinstance(y, ast.Call) and isinstance(y.func, ast.Name) and y.func.id == "id") or (isinstance(y, ast.Name) and y.id in ids) for y in ast.walk(e))
+
+            bad = None
+            for x in walk_local(f.node):
+                key = holder = None
+                if isinstance(x, ast.Call) and isinstance(x.func, ast.Attribute) and x.func.attr in ("add", "append", "setdefault", "update") and x.args:
+                    key, holder = x.args[0], x.func.value
+                elif isinstance(x, ast.Subscript) and isinstance(x.ctx, ast.Store):
+                    key, holder = x.slice, x.value
+                if key is None:
+                    continue
+                root = holder
+                while isinstance(root, ast.Attribute):
+                    root = root.value
+                on_descriptor = isinstance(holder, ast.Attribute) and isinstance(root, ast.Name) and root.id in (selfn, "cls")
+                if on_descriptor and by_id(key):
+                    bad = bad or x
+            r.check(bad is None, f"{f.short}#no-id-keyed-memory", site(f, bad) if bad is not None else site(f), src(bad)[:80] if bad is not None else "", "nothing keyed by id() is stored on the descriptor",
+                    f"`{src(bad)[:70] if bad is not None else ''}` stores ids of instances on the descriptor, which outlives them: an owner / element pair that was assigned once makes a later pair of new "
+                    "instances at the same addresses look recorded - the element is in the field, the relation and all its inferences are missing")
+    if n < 3:
+        raise AnalysisError("ID-MEMO: fewer than three descriptor methods found")
+    return r
+
+
 def run(prog: Program, tier: str) -> List[RuleResult]:
-    return [guard(lambda: sg_coherence(prog)), guard(lambda: idkey(prog)), guard(lambda: rel_gate(prog)), guard(lambda: sg_purge_directions(prog)), guard(lambda: rel_live(prog)), guard(lambda: _sg_sweep(prog)), guard(lambda: _opt_truth(prog)), guard(lambda: rel_edges(prog)), guard(lambda: id_state(prog)), guard(lambda: owner_bound(prog))]
+    return [guard(lambda: sg_coherence(prog)), guard(lambda: idkey(prog)), guard(lambda: rel_gate(prog)), guard(lambda: sg_purge_directions(prog)), guard(lambda: rel_live(prog)), guard(lambda: _sg_sweep(prog)), guard(lambda: _opt_truth(prog)), guard(lambda: rel_edges(prog)), guard(lambda: id_state(prog)), guard(lambda: owner_bound(prog)), guard(lambda: id_memo(prog))]
